@@ -120,6 +120,24 @@ def plain_programs(report):
             src = nest.build(*ncases[k])
             if src is not None:
                 hcases.append((src, [env.ALL_CFGS[k % 8]]))
+        # ... and the pool (with the zoo and the version-sensitive programs) under the other hosts
+        from . import c15
+        f31 = "fstring-field-string-literal" in open_switches("C01")
+        pcases = []
+        for i, (name, src) in enumerate(sorted(pool.all_programs().items()) + sorted(pool.VERSION_SENSITIVE.items())):
+            if name in ("long_string_in_field", "zoo_fstrings_pep701"):
+                continue        # host 3.12+ syntax in the SOURCE
+            if name.startswith("vs_long_") and quick:
+                continue
+            if f31 and (c15.has_field_string_literal(src) or c15.has_field_literal_needing_escape(src)):
+                # open finding F31 (applies to C01): on hosts before 3.12 a string literal inside an f-string
+                # field is refused or written in host-specific syntax
+                report.exclusions["fstring-field-string-literal"] = report.exclusions.get("fstring-field-string-literal", 0) + 1 \
+                    if isinstance(report.exclusions.get("fstring-field-string-literal", 0), int) else 1
+                continue
+            pcases.append((src, [env.ALL_CFGS[i % 8], env.ALL_CFGS[(i + 5) % 8]]))
+        hcases = pcases + hcases
+        report.extra["pool_programs_per_other_host"] = len(pcases)
         per_host = max(1, env.NPROC // len(others))
         hitems = [(h, hcases[j::per_host], {}, "[interaction] program behaves differently after conversion")
                   for h in others for j in range(per_host)]
